@@ -239,11 +239,20 @@ def run_ratchet(run):
     quick = run.tier == "quick"
     binp = vlib.build_driver("internal/verif/dbdrv")
     tdir = vlib.scratch("verif.ratchet.")
-    env = dict(VERIF_OUT=tdir, VERIF_SEED=str(run.seed), VERIF_PAIRS=str(10 if quick else 0))
+    env = dict(VERIF_OUT=tdir, VERIF_SEED=str(run.seed), VERIF_PAIRS=str(10 if quick else 0),
+               VERIF_FAULTPAIRS=str(4 if quick else 24))
     code, out = vlib.run_driver(binp, "TestRatchet", env=env, timeout=3400)
     if "DRIVER-DONE" not in out:
         raise vlib.Inconclusive("dbdrv TestRatchet died:\n" + out[-3000:])
+    for l in out.splitlines():
+        if l.startswith("DRIVER-FAULTRUNS"):
+            run.cov["single_fault_ratchets"] = int(l.split()[1])
+    run.assumptions.append("single-fault runs: each filesystem write op of a ratchet (except WAL writes, MANIFEST appends and fsyncs, "
+                           "whose failure is fatal by design) fails once; the failed call must leave the version within [from, to], "
+                           "and the retry is held to everything a first successful ratchet is held to")
     files = sorted(glob.glob(os.path.join(tdir, "*.ndjson")))
+    # the pair list of the evidence comes from the crash-probed runs only
+    files_pairs = [f for f in files if os.path.basename(f).startswith("R-")]
     checked = ["crash40", "latest"]
     validate(run, files, checked)
     evals = 0
@@ -251,7 +260,8 @@ def run_ratchet(run):
     pairs = set()
     for f in files:
         b = os.path.basename(f).split(".")[0].split("-")
-        pairs.add((b[-2], b[-1]))
+        if f in files_pairs:
+            pairs.add((b[-2], b[-1]))
         for l in open(f):
             if '"op":"crashprobe"' in l:
                 e = json.loads(l)
